@@ -198,6 +198,7 @@ class State(object):
 
 class Path(object):
     def __init__(self, st):
+        self.state = st
         self.conds = st.conds
         self.effects = st.effects
         self.exit = st.exit
@@ -250,7 +251,7 @@ ADAPTORS = {
 
 class Machine(object):
     def __init__(self, facts, inline=None, opaque_fns=(), max_paths=20000, max_depth=12,
-                 on_next=None, identity_clone=True, keep_trace=False, loop_once=False, alias=None, pure_fns=()):
+                 on_next=None, identity_clone=True, keep_trace=False, loop_once=False, alias=None, pure_fns=(), next_hook=None):
         self.facts = facts
         self.inline = inline  # predicate(path) -> bool, default: every crate-local fn with MIR
         self.opaque_fns = set(opaque_fns)
@@ -258,6 +259,7 @@ class Machine(object):
         self.max_depth = max_depth
         self.on_next = on_next
         self.keep_trace = keep_trace
+        self.next_hook = next_hook  # callable(state, iterator label) -> ("some", value) | ("none",) | ("stop",)
         self.alias = alias  # callable(label) -> shorter label (or the same)
         self.pure_fns = set(pure_fns)  # opaque calls without side effects (not logged as effects)
         self.loop_once = loop_once  # `for` loops: one generic element, then the iterator is exhausted (no fork)
@@ -551,11 +553,11 @@ class Machine(object):
         body = self.body_of(fr.key)
         blk = body["blocks"][fr.bb]
         n = fr.visits.get(fr.bb, 0)
-        if n >= 1 and not self.loop_once and self.is_loop_head(fr.key, fr.bb):
+        if n >= 1 and not self.loop_once and self.next_hook is None and self.is_loop_head(fr.key, fr.bb):
             st.exit = "loop_back"
             st.ret = ("loop_back", fr.key[0], fr.bb)
             return None
-        if n >= 8:
+        if n >= 8 and self.next_hook is None:
             raise Unsupported("block bb%d of %s visited %d times" % (fr.bb, fr.key, n))
         fr.visits[fr.bb] = n + 1
         if self.keep_trace:
@@ -982,6 +984,16 @@ class Machine(object):
             if isinstance(il, tuple) and il and il[0] == "iter":
                 il = il[1]
             st.counter += 1
+            if self.next_hook is not None:
+                r = self.next_hook(st, il)
+                if r[0] == "stop":
+                    # leave the frame at this block so that a resumed copy calls `next` again
+                    st.exit = "stopped_at_next"
+                    st.ret = ("stopped_at_next", fr.key[0], fr.bb)
+                    return None
+                if r[0] == "none":
+                    return finish(AdtVal("std::option::Option", 0, {}, None, "None"))
+                return finish(AdtVal("std::option::Option", 1, {0: Cell(r[1])}, None, "Some"))
             if self.loop_once:
                 seen = sum(1 for e in st.effects if e[0] == "next" and e[1] == il) - sum(1 for e in st.effects if e[0] == "next_end" and e[1] == il)
                 if seen >= 1:
